@@ -193,9 +193,19 @@ def run_tc(cell):
         pot.configureDerivatives(WallGo.VeffDerivativeSettings(temperatureVariationScale=0.05 * Tref, fieldValueVariationScale=[0.3 * m.field_scale()] * m.nf))
         th = WallGo.Thermodynamics(pot, Tn, Fields(tuple(np.ravel(m.minimum(lo, np.array(Tn))))), Fields(tuple(np.ravel(m.minimum(hi, np.array(Tn))))))
         dT = cell["dT"] * Tref
-        for fe, br in ((th.freeEnergyHigh, hi), (th.freeEnergyLow, lo)):
-            s = m.spinodals(br)
-            fe.tracePhase(max(s[0], 0.5 * Tref) * 1.002 if s[0] > 0 else 0.7 * Tref, min(s[1], 1.6 * Tref) * 0.998, dT, rTol=10.0 ** (-cell["rTol"]), paranoid=cell["paranoid"])
+        if cell.get("pretraced", True):
+            for fe, br in ((th.freeEnergyHigh, hi), (th.freeEnergyLow, lo)):
+                s = m.spinodals(br)
+                fe.tracePhase(max(s[0], 0.5 * Tref) * 1.002 if s[0] > 0 else 0.7 * Tref, min(s[1], 1.6 * Tref) * 0.998, dT, rTol=10.0 ** (-cell["rTol"]), paranoid=cell["paranoid"])
+        else:
+            # the other call history: findCriticalTemperature traces the phases itself, over a stated range that extends
+            # past the spinodals of both phases on either side (it must stop there and still find the crossing)
+            sH, sL = m.spinodals(hi), m.spinodals(lo)
+            lo_r = 0.96 * max(sH[0], sL[0], 0.5 * Tref)
+            hi_r = 1.03 * min(sH[1], sL[1], 1.6 * Tref)
+            for fe in (th.freeEnergyHigh, th.freeEnergyLow):
+                fe.minPossibleTemperature[0] = lo_r
+                fe.maxPossibleTemperature[0] = hi_r
         got = th.findCriticalTemperature(dT, rTol=10.0 ** (-cell["rTol"]), paranoid=cell["paranoid"])
         ev["out"] = "ok"
         ev["dTc"] = quant.digits(abs(got - Tc) / Tc)
@@ -204,7 +214,8 @@ def run_tc(cell):
     except Exception as ex:
         ev["out"] = type(ex).__name__
         ev["msg"] = str(ex)[:200]
-    return {"id": "Tc_{model}_u{u}_dT{dT}_tol{rTol}_{p}".format(p="par" if cell["paranoid"] else "nopar", **cell), "ev": [ev], "cell": dict(cell, kind="Tc")}
+    return {"id": "Tc_{model}_u{u}_dT{dT}_tol{rTol}_{p}{q}".format(p="par" if cell["paranoid"] else "nopar", q="" if cell.get("pretraced", True) else "_selftraced", **cell),
+            "ev": [ev], "cell": dict(cell, kind="Tc")}
 
 
 def cells(tier, seed):
@@ -249,6 +260,10 @@ def cells(tier, seed):
            for dT in ((3.16e-4, 1e-3) if mdl == "one" else (1e-3, 5e-3)) for tol in (6,) for par in (True, False)]
     if tier == "quick":
         tcs = tcs[::4]
+    # phases traced by findCriticalTemperature itself (without re-minimisation: with it the request past a spinodal is
+    # the subject of known finding C11-F1)
+    tcs += [dict(model=mdl, u=u, dT=(1e-3 if mdl == "one" else 5e-3), rTol=6, paranoid=False, pretraced=False)
+            for mdl in ("one", "two") for u in ((1.0,) if tier == "quick" else (1.0, 0.01, 100.0))]
     return out, tcs
 
 
